@@ -124,22 +124,71 @@ def run_tlc(scratch, module_dir, module, cfg, workers=16, timeout=900, env_extra
         return _run_tlc(scratch, module_dir, module, cfg, max(1, workers // 2), timeout, env_extra, extra_args)
 
 
+import contextlib
+import fcntl
+
+_SLOTS = 20   # machine-wide budget of "TLC weight" (1 per trace-validation JVM, workers/4 per exhaustive run)
+
+
+@contextlib.contextmanager
+def tlc_slots(weight):
+    """Machine-wide limiter for concurrent TLC JVMs (checks of several properties may run at once):
+    acquires `weight` of _SLOTS lock files under /tmp/kvh-tlc-slots; purely a courtesy, never a verdict."""
+    os.makedirs("/tmp/kvh-tlc-slots", exist_ok=True)
+    held = []
+    try:
+        deadline = time.time() + 900
+        while len(held) < weight:
+            got = False
+            for k in range(_SLOTS):
+                fp = "/tmp/kvh-tlc-slots/slot%02d" % k
+                if any(h[0] == fp for h in held):
+                    continue
+                f = open(fp, "w")
+                try:
+                    fcntl.flock(f, fcntl.LOCK_EX | fcntl.LOCK_NB)
+                    held.append((fp, f))
+                    got = True
+                    break
+                except OSError:
+                    f.close()
+            if not got:
+                if time.time() > deadline:
+                    break   # waited long enough: go ahead anyway
+                for _, f in held:   # do not hold partial sets while waiting (deadlock avoidance)
+                    f.close()
+                held = []
+                time.sleep(0.5 + 0.5 * (os.getpid() % 7) / 7.0)
+        yield
+    finally:
+        for _, f in held:
+            f.close()
+
+
 def _run_tlc(scratch, module_dir, module, cfg, workers, timeout, env_extra, extra_args):
     """Run TLC; returns dict(ok, states, distinct, violated, out, wall)."""
     d = _spec_copy(scratch, module_dir)
     meta = tempfile.mkdtemp(prefix="meta-", dir=scratch.dir)
     env = dict(os.environ)
+    # The tlc wrapper sets no -Xmx: every JVM would grow towards 25% of RAM.  Cap it (callers may override).
+    if workers <= 1:
+        env.setdefault("JAVA_TOOL_OPTIONS", "-Xmx2g -XX:ParallelGCThreads=2")
+    else:
+        env.setdefault("JAVA_TOOL_OPTIONS", "-Xmx8g -XX:ParallelGCThreads=4")
     if env_extra:
         env.update(env_extra)
     cmd = ["timeout", str(timeout), "tlc", "-workers", str(workers), "-metadir", meta, "-config", cfg]
     if extra_args:
         cmd += extra_args
     cmd.append(module)
-    t = time.time()
-    r = subprocess.run(cmd, cwd=d, env=env, capture_output=True, text=True)
+    with tlc_slots(max(1, workers // 4)):
+        t = time.time()
+        r = subprocess.run(cmd, cwd=d, env=env, capture_output=True, text=True)
     out = r.stdout + r.stderr
     wall = time.time() - t
     shutil.rmtree(meta, ignore_errors=True)
+    if r.returncode == 137 or "OutOfMemoryError" in out:
+        raise Broken("TLC was killed / ran out of memory on %s/%s (rc=%d)" % (module_dir, cfg, r.returncode))
     res = {"rc": r.returncode, "out": out, "wall": wall, "states": 0, "distinct": 0, "violated": None,
            "rejected_at": None, "kf": sorted(set(_RE_KF.findall(out))), "dir": d}
     m = None
@@ -227,7 +276,7 @@ def split_trace(path, parts, scratch):
     return files
 
 
-def validate_traces(scratch, module_dir, module, cfg, files, timeout=1800, parallel=16, env_extra=None):
+def validate_traces(scratch, module_dir, module, cfg, files, timeout=1800, parallel=12, env_extra=None):
     """Validate NDJSON trace files against a trace spec.  Returns dict with
     accepted(bool), rejections [(file, line_no)], kf (set of known-finding keys hit)."""
     parts = []
